@@ -1,5 +1,309 @@
-"""stub"""
+"""C15 — one node and one labelled edge per decay line (DESIGN.md §4 C15)."""
+from __future__ import annotations
+
+import ast
+import re
+
+from ..core import guards
+from ..core import pyfacts as pf
+from ..core.match import call_arg, phi_alts, txt
 from ..core.source import AnchorMissing
-PROP="C15"
+from .common import VIEWER, ckey, enclosing, fn, stmt_of, where
+
+PROP = "C15"
+FILES = [VIEWER]
+EXPLANATION = (
+    "C15.1 in iterate_chain every path through one iteration of the per-line loop creates exactly one node (through a "
+    "node-creating helper) and exactly one edge, and the loop ranges over all lines; C15.2 node parts and edge label are "
+    "subscripted with the loop variable of the same iteration (label = str(line['bf']), parts = line['fs']); C15.3 the names "
+    "shown reach html_table_label through order-preserving element-wise maps only (no sorted / set / reversed); C15.4 the "
+    "recursion passes the enumerate index of the decaying daughter as link_pos, the edge tail is '<parent>:p<link_pos>' and "
+    "cells are written with PORT=\"p<i>\" from enumerate(names): same scheme on both sides; C15.5 node identifiers are the "
+    "constant root id or 'dec<next(counter)>' with the module-level counter bound once and never reset; the root node is "
+    "created exactly when there is no parent.")
+NOT_DECIDED = ["acceptance of the output by Graphviz (external tool): not applicable"]
+B = "DecayChainViewer._build_decay_graph"
+
+
 def run(ctx, ss):
-    raise AnchorMissing("rules not built yet")
+    for r, f in (("C15.1", c15_1), ("C15.2", c15_2), ("C15.3", c15_3), ("C15.4", c15_4), ("C15.5", c15_5)):
+        ctx.guard(r, f, ss)
+
+
+def _helpers(ss):
+    """Nested helpers that create a graph node (call self.graph.node)."""
+    mf = pf.module_facts(ss, VIEWER)
+    out = {}
+    for q, ff in mf.funcs.items():
+        if q.startswith(B + ".") and any(txt(c.func) == "self.graph.node" for c in pf.calls_in(ff.node, nested=False)):
+            out[q.split(".")[-1]] = ff
+    return out
+
+
+def _line_loop(ff, flow):
+    loops = [n for n in pf.walk_no_nested(ff.node) if isinstance(n, ast.For) and not enclosing(ff, n, (ast.For,))]
+    cands = [lp for lp in loops if any(txt(c.func) == "self.graph.edge" for c in pf.calls_in(lp))]
+    if len(cands) != 1:
+        raise AnchorMissing("iterate_chain: per-line loop not found")
+    return cands[0]
+
+
+def c15_1(ctx, ss):
+    ff, flow = fn(ss, VIEWER, f"{B}.iterate_chain")
+    helpers = _helpers(ss)
+    creators = {n for n in helpers if n != "iterate_chain"}
+    lp = _line_loop(ff, flow)
+    it = txt(flow.expand(lp.iter))
+    k = ckey(ff, None, "per-line")
+    if it in ("range(len(subchain))", "subchain", "enumerate(subchain)"):
+        ctx.holds("C15.1", k + " :: all-lines", where(ff, lp), f"the loop ranges over every decay line (`{it}`)", 1)
+    else:
+        ctx.violation("C15.1", k + " :: all-lines", where(ff, lp), f"the per-line loop ranges over `{it}`: not every decay line gets a node and an edge")
+    cfg = flow.cfg
+    hdr = cfg.node_of(lp)
+
+    def stmts_calling(pred):
+        out = set()
+        for c in pf.calls_in(lp):
+            if pred(c) and not any(isinstance(x, ast.For) and x is not lp for x in enclosing(ff, c, (ast.For,))):
+                out.add(cfg.node_of(stmt_of(ff, c)))
+        return out
+    node_nodes = stmts_calling(lambda c: isinstance(c.func, ast.Name) and c.func.id in creators)
+    direct = stmts_calling(lambda c: txt(c.func) == "self.graph.node")
+    edge_nodes = stmts_calling(lambda c: txt(c.func) == "self.graph.edge")
+    lo, hi, _ = cfg.count_per_iteration(hdr, lambda n: n.id in node_nodes or n.id in direct)
+    (ctx.holds if (lo, hi) == (1, 1) else ctx.violation)("C15.1", k + " :: one-node", where(ff, lp),
+                                                         "exactly one node is created per decay line on every path" if (lo, hi) == (1, 1)
+                                                         else f"between {lo} and {'many' if hi >= 99 else hi} nodes are created per decay line")
+    lo, hi, _ = cfg.count_per_iteration(hdr, lambda n: n.id in edge_nodes)
+    (ctx.holds if (lo, hi) == (1, 1) else ctx.violation)("C15.1", k + " :: one-edge", where(ff, lp),
+                                                         "exactly one edge is created per decay line on every path" if (lo, hi) == (1, 1)
+                                                         else f"between {lo} and {'many' if hi >= 99 else hi} edges are created per decay line")
+    # every edge call in the loop targets the node created in the same branch
+    for c in [c for c in pf.calls_in(lp) if txt(c.func) == "self.graph.edge"]:
+        head = flow.expand(c.args[1]) if len(c.args) > 1 else None
+        ok = head is not None and isinstance(head, ast.Call) and isinstance(head.func, ast.Name) and head.func.id in creators
+        (ctx.holds if ok else ctx.violation)("C15.1", ckey(ff, c, "edge-head"), where(ff, c),
+                                             "the edge ends at the node just created for this line" if ok else f"the edge ends at `{txt(head)[:60] if head is not None else None}`")
+    ctx.count("helpers", len(helpers))
+
+
+def c15_2(ctx, ss):
+    ff, flow = fn(ss, VIEWER, f"{B}.iterate_chain")
+    lp = _line_loop(ff, flow)
+    lv = lp.target.id if isinstance(lp.target, ast.Name) else None
+    subs = [s for s in ast.walk(lp) if isinstance(s, ast.Subscript) and isinstance(s.value, ast.Name) and s.value.id == "subchain"]
+    k = ckey(ff, None, "same-line")
+    if txt(lp.iter) == "subchain":
+        subs = []
+    bad = [s for s in subs if txt(s.slice) != lv]
+    if bad:
+        ctx.violation("C15.2", k + " :: index", where(ff, bad[0]), f"`{txt(bad[0])}` does not use the loop variable `{lv}`: parts / label are taken from another decay line")
+    else:
+        ctx.holds("C15.2", k + " :: index", where(ff, lp), f"all {len(subs)} subscripts of subchain use the loop variable", len(subs) + 1)
+    line = f"subchain[{lv}]" if txt(lp.iter) != "subchain" else f"__elem__(subchain)"
+    for c in [c for c in pf.calls_in(lp) if txt(c.func) == "self.graph.edge"]:
+        lab = call_arg(c, 2, "label")
+        KEEP = {lv} if lv else set()
+        t = txt(flow.expand(lab, keep=KEEP)) if lab is not None else None
+        ok = t in (f"str({line}['bf'])", f"str(__elem__(subchain)['bf'])")
+        (ctx.holds if ok else ctx.violation)("C15.2", ckey(ff, c, "label"), where(ff, c),
+                                             "edge label = str(this line's bf)" if ok else f"edge label is `{t}`, not the branching fraction of this decay line")
+        head = flow.expand(c.args[1], keep=KEEP) if len(c.args) > 1 else None
+        if isinstance(head, ast.Call) and head.args:
+            t2 = txt(head.args[0])
+            ok2 = t2 in (f"{line}['fs']", "__elem__(subchain)['fs']")
+            (ctx.holds if ok2 else ctx.violation)("C15.2", ckey(ff, c, "parts"), where(ff, c),
+                                                  "node parts = this line's fs" if ok2 else f"the node lists `{t2}`, not the daughters of this decay line")
+
+
+def c15_3(ctx, ss):
+    helpers = _helpers(ss)
+    REORDER = {"sorted", "reversed", "set", "frozenset"}
+    n = 0
+    for name, hf in helpers.items():
+        if name == "iterate_chain":
+            continue
+        from ..core.defuse import flow_of
+        hflow = flow_of(ss, hf)
+        calls = [c for c in pf.calls_in(hf.node, nested=False) if isinstance(c.func, ast.Name) and c.func.id == "html_table_label"]
+        for c in calls:
+            n += 1
+            a = hflow.expand(c.args[0])
+            k = ckey(hf, None, "order")
+            bad = [x for x in ast.walk(a) if isinstance(x, ast.Call) and isinstance(x.func, ast.Name) and x.func.id in REORDER] + \
+                  [x for x in ast.walk(a) if isinstance(x, ast.Call) and isinstance(x.func, ast.Attribute) and x.func.attr in ("sort", "reverse")] + \
+                  [x for x in ast.walk(a) if isinstance(x, ast.Subscript) and isinstance(x.slice, ast.Slice)]
+            p0 = hf.params[0]
+            ok_src = txt(a) == p0 or (isinstance(a, ast.ListComp) and len(a.generators) == 1 and not a.generators[0].ifs and txt(a.generators[0].iter) == p0)
+            if bad:
+                ctx.violation("C15.3", k, where(hf, c), f"{name}: the daughters shown are reordered / cut (`{txt(bad[0])[:60]}`): the node no longer lists them in the given order")
+            elif not ok_src:
+                ctx.violation("C15.3", k, where(hf, c), f"{name}: the names shown are `{txt(a)[:80]}`, not an element-wise map of the daughters")
+            else:
+                ctx.holds("C15.3", k, where(hf, c), f"{name}: names reach the label in the given order", 2)
+        srt = [c for c in pf.calls_in(hf.node) if isinstance(c.func, ast.Attribute) and c.func.attr in ("sort", "reverse") and txt(c.func.value) == hf.params[0]]
+        if srt:
+            ctx.violation("C15.3", ckey(hf, None, "inplace-sort"), where(hf, srt[0]), f"{name} sorts the daughters in place")
+    ctx.floor("C15.3", "label-building call sites", n, 2)
+    # html_table_label itself iterates in order
+    lf, lflow = fn(ss, VIEWER, f"{B}.html_table_label")
+    loops = [x for x in pf.walk_no_nested(lf.node) if isinstance(x, ast.For)]
+    ok = len(loops) == 1 and txt(loops[0].iter) == "enumerate(names)"
+    (ctx.holds if ok else ctx.violation)("C15.3", ckey(lf, None, "cells"), where(lf, lf.node),
+                                          "html_table_label writes one cell per name, in order" if ok else "html_table_label does not iterate enumerate(names)")
+
+
+def c15_4(ctx, ss):
+    ff, flow = fn(ss, VIEWER, f"{B}.iterate_chain")
+    rec = [c for c in pf.calls_in(ff.node) if isinstance(c.func, ast.Name) and c.func.id == "iterate_chain"]
+    if not rec:
+        ctx.violation("C15.4", ckey(ff, None, "recursion"), where(ff, ff.node), "sub-decays are never drawn (no recursive call)")
+        return
+    for c in rec:
+        lps = enclosing(ff, c, (ast.For,))
+        k = ckey(ff, None, "recursion")
+        inner = lps[0]
+        ok = isinstance(inner.iter, ast.Call) and txt(inner.iter.func) == "enumerate" and isinstance(inner.target, ast.Tuple)
+        if not ok:
+            ctx.violation("C15.4", k, where(ff, c), "the recursion is not inside an enumerate() over the daughters")
+            continue
+        idx, el = (e.id for e in inner.target.elts)
+        lpos = call_arg(c, 2, "link_pos")
+        tn = call_arg(c, 1, "top_node")
+        sub = c.args[0] if c.args else None
+        ok_pos = lpos is not None and txt(lpos) == idx
+        enum_src = txt(flow.expand(inner.iter.args[0]))
+        # the enumerated list is the same list the parent node was built from
+        edge = [e for e in pf.calls_in(lps[-1]) if txt(e.func) == "self.graph.edge" and any(e is x for x in ast.walk(_branch_of(ff, c, lps[-1])))]
+        parent_parts = None
+        ok_tn = False
+        for e in edge:
+            head = flow.expand(e.args[1])
+            if isinstance(head, ast.Call) and head.args:
+                parent_parts = txt(head.args[0])
+                ok_tn = tn is not None and txt(flow.expand(tn)) == txt(head)
+        ok_list = parent_parts == enum_src
+        ok_sub = sub is not None and flow.text(sub) in (f"__elem__(enumerate({enum_src}))[1][next(iter(__elem__(enumerate({enum_src}))[1].keys()))]",)
+        conds = [(txt(e), pol) for kind, e, pol in guards.path_conditions(inner, stmt_of(ff, c)) if kind == "if"]
+        ok_guard = conds in ([(f"not isinstance({el}, str)", True)], [(f"isinstance({el}, dict)", True)], [(f"isinstance({el}, str)", False)])
+        if ok_pos and ok_list and ok_tn and ok_sub and ok_guard:
+            ctx.holds("C15.4", k, where(ff, c), "iterate_chain(<daughter's lines>, top_node=<this node>, link_pos=<daughter's index in the node>) for every decaying daughter", 5)
+        else:
+            ctx.violation("C15.4", k, where(ff, c),
+                          f"recursion: link_pos ok={ok_pos}, same list as the node={ok_list} ({parent_parts} vs {enum_src}), parent node ok={ok_tn}, sub-chain ok={ok_sub}, guard={conds}")
+    # port scheme agreement
+    lf, lflow = fn(ss, VIEWER, f"{B}.html_table_label")
+    ports = set()
+    for js in [x for x in pf.walk_no_nested(lf.node) if isinstance(x, ast.JoinedStr)]:
+        parts = js.values
+        for i, p in enumerate(parts):
+            if isinstance(p, ast.Constant) and isinstance(p.value, str) and 'PORT="' in p.value and i + 1 < len(parts) and isinstance(parts[i + 1], ast.FormattedValue):
+                prefix = p.value.split('PORT="')[-1]
+                ports.add((prefix, txt(parts[i + 1].value)))
+    tails = set()
+    for c in [c for c in pf.calls_in(ff.node) if txt(c.func) == "self.graph.edge"]:
+        t = c.args[0]
+        if isinstance(t, ast.JoinedStr):
+            vals = t.values
+            if len(vals) == 3 and isinstance(vals[1], ast.Constant) and isinstance(vals[0], ast.FormattedValue) and isinstance(vals[2], ast.FormattedValue):
+                m = re.fullmatch(r":(\w*)", vals[1].value)
+                tails.add((m.group(1) if m else "?" + vals[1].value, txt(vals[0].value), txt(vals[2].value)))
+            else:
+                tails.add(("?", txt(t), ""))
+    k = ckey(ff, None, "ports")
+    lp_loops = [x for x in pf.walk_no_nested(lf.node) if isinstance(x, ast.For)]
+    idx_name = lp_loops[0].target.elts[0].id if lp_loops and isinstance(lp_loops[0].target, ast.Tuple) else None
+    ok = len(ports) == 1 and tails and all(t[0] == next(iter(ports))[0] and t[1] == "top_node" and t[2] == "link_pos" for t in tails) \
+        and next(iter(ports))[1] == idx_name
+    (ctx.holds if ok else ctx.violation)("C15.4", k, where(ff, ff.node),
+                                          f"cells carry PORT=\"{next(iter(ports))[0]}<index>\" and edges leave '<parent>:{next(iter(ports))[0]}<link_pos>'" if ok
+                                          else f"port naming differs between cells {sorted(ports)} and edge tails {sorted(tails)}")
+    # with a port exactly when there is a link position
+    for c in [c for c in pf.calls_in(ff.node) if txt(c.func) == "self.graph.edge"]:
+        conds = [(txt(e), pol) for kind, e, pol in guards.path_conditions(ff.node, stmt_of(ff, c)) if kind == "if" and "link_pos" in txt(e)]
+        has_port = isinstance(c.args[0], ast.JoinedStr)
+        okc = conds == [("link_pos is None", not has_port)] or conds == [("link_pos is not None", has_port)]
+        tail_ok = has_port or txt(c.args[0]) == "top_node"
+        (ctx.holds if okc and tail_ok else ctx.violation)("C15.4", ckey(ff, c, "tail"), where(ff, c),
+                                                          "edge tail: the parent's port iff a link position is given, else the parent node" if okc and tail_ok
+                                                          else f"edge tail `{txt(c.args[0])}` under {conds}")
+
+
+def _branch_of(ff, node, loop):
+    """The direct child statement of `loop` body's if/else branch containing node (or the loop itself)."""
+    pm = pf.parent_map(ff.node)
+    x = node
+    last_if_block = loop
+    while id(x) in pm and x is not loop:
+        p = pm[id(x)]
+        if isinstance(p, ast.If) and any(p is y for y in ast.walk(loop)):
+            # which branch
+            blk = p.body if any(x is s for s in p.body) else p.orelse
+            m = ast.Module(body=blk, type_ignores=[])
+            last_if_block = m
+        x = p
+    return last_if_block
+
+
+def c15_5(ctx, ss):
+    mf = pf.module_facts(ss, VIEWER)
+    # counter bound once at module level
+    binds = [st for st in mf.tree.body if isinstance(st, (ast.Assign, ast.AnnAssign)) and any(isinstance(t, ast.Name) and t.id == "counter" for t in (st.targets if isinstance(st, ast.Assign) else [st.target]))]
+    k = f"{VIEWER}:counter"
+    ok = len(binds) == 1 and txt(binds[0].value) in ("iter(itertools.count())", "itertools.count()", "count()", "iter(count())")
+    (ctx.holds if ok else ctx.violation)("C15.5", k + " :: bound-once", f"src/decaylanguage/{VIEWER}:{binds[0].lineno if binds else 0}",
+                                          "counter = itertools.count() bound once at module level" if ok else f"the id counter is bound {len(binds)} times / to `{txt(binds[0].value) if binds else None}`")
+    rebinds = []
+    for q, ff in mf.funcs.items():
+        for n in pf.walk_no_nested(ff.node):
+            if isinstance(n, (ast.Global, ast.Nonlocal)) and "counter" in n.names:
+                rebinds.append((ff, n))
+            if isinstance(n, (ast.Assign, ast.AugAssign, ast.AnnAssign)):
+                ts = n.targets if isinstance(n, ast.Assign) else [n.target]
+                if any(isinstance(t, ast.Name) and t.id == "counter" for t in ts):
+                    rebinds.append((ff, n))
+            if isinstance(n, ast.Assign) and any(isinstance(t, ast.Attribute) and t.attr == "counter" for t in n.targets):
+                rebinds.append((ff, n))
+    for ff, n in rebinds:
+        ctx.violation("C15.5", ckey(ff, None, "counter-reset"), where(ff, n), f"{ff.qualname} rebinds / resets the node id counter: identifiers repeat across graphs of one session")
+    if not rebinds:
+        ctx.holds("C15.5", k + " :: never-reset", f"src/decaylanguage/{VIEWER}", "no function rebinds the counter", len(mf.funcs))
+    # node ids
+    n = 0
+    for q, ff in mf.funcs.items():
+        if not q.startswith(B):
+            continue
+        from ..core.defuse import flow_of
+        fl = flow_of(ss, ff)
+        for c in pf.calls_in(ff.node, nested=False):
+            if txt(c.func) == "self.graph.node":
+                n += 1
+                a = fl.expand(c.args[0])
+                t = txt(a)
+                kk = ckey(ff, c, "id")
+                if t == "'mother'" or t == "f'dec{next(counter)}'":
+                    ctx.holds("C15.5", kk, where(ff, c), f"node id is {t}", 1)
+                else:
+                    ctx.violation("C15.5", kk, where(ff, c), f"node id `{t[:60]}` is neither the root id nor a fresh counter value")
+                # the helper returns the same id it registered
+                if t != "'mother'":
+                    rets = [r for r in pf.walk_no_nested(ff.node) if isinstance(r, ast.Return)]
+                    okr = len(rets) == 1 and isinstance(rets[0].value, ast.Name) and isinstance(c.args[0], ast.Name) and rets[0].value.id == c.args[0].id
+                    (ctx.holds if okr else ctx.violation)("C15.5", ckey(ff, None, "returns-id"), where(ff, ff.node),
+                                                          "the helper returns the id of the node it created (one counter draw)" if okr else "the helper returns another id than the one it registered")
+    ctx.floor("C15.5", "graph.node call sites", n, 3)
+    # root node exactly when there is no parent
+    ff, flow = fn(ss, VIEWER, f"{B}.iterate_chain")
+    roots = [c for c in pf.calls_in(ff.node) if txt(c.func) == "self.graph.node"]
+    ok = len(roots) == 1
+    if ok:
+        conds = [(txt(e), pol) for kind, e, pol in guards.path_conditions(ff.node, stmt_of(ff, roots[0])) if kind == "if"]
+        ok = conds in ([("not top_node", True)], [("top_node is None", True)], [("top_node", False)]) and not enclosing(ff, roots[0], (ast.For,))
+    (ctx.holds if ok else ctx.violation)("C15.5", ckey(ff, None, "root"), where(ff, roots[0] if roots else ff.node),
+                                          "the root node is created exactly when iterate_chain is entered without a parent" if ok else "the root node is not created exactly once, when there is no parent")
+    bf, bflow = fn(ss, VIEWER, B)
+    tops = [c for c in pf.calls_in(bf.node, nested=False) if isinstance(c.func, ast.Name) and c.func.id == "iterate_chain"]
+    okt = len(tops) == 1 and len(tops[0].args) == 1 and not tops[0].keywords and bflow.text(tops[0].args[0]) == "self._chain[next(iter(self._chain.keys()))]"
+    (ctx.holds if okt else ctx.violation)("C15.5", ckey(bf, None, "entry"), where(bf, bf.node),
+                                          "the graph is built from the lines of the chain's single mother, without a parent" if okt else "the top-level call does not start from the chain's mother without a parent")
